@@ -197,13 +197,14 @@ MANIFEST = {
             "above every leaf are determined by the leaf's raw path alone, the slot at prefix P holding the last registered group with "
             "key P, and group insertion changes nothing else (C12_groups_attach); hence what runs is, as a multiset, what the entries say "
             "one by one (C12_registered_cases), every case exactly once under --include-ignored (C12_all_run_once), independently of "
-            "registration order when group keys are distinct (C12_order_independent); macro level: nothing for exclusively empty lists, one "
+            "registration order when group keys are distinct (C12_order_independent), and equal to the intended flat semantics under the "
+            "no-name-clash guard (C12_flat_semantics); macro level: nothing for exclusively empty lists, one "
             "entry per function, exactly the types x consts product for generic ones, external consts 1..20 (C12_expand_*). Without the "
             "key guard the property fails in divan: C12_name_clash_refuted (finding F8). Correspondence: synthetic registries in random "
             "constructor orders and generated crates using the real attribute macros (registry dump, terse listing, --test log, --list).",
     "note": "The specification evaluated on the implementation is the tree-free 'flat' semantics (every entry at its module path, bench_group "
-            "modules contributing name and options); its equality with the proved keyed semantics under the no-name-clash guard is checked "
-            "by the correspondence streams, not proved. Known finding F8 (module and generic fn of the same name share a tree node) is kept "
+            "modules contributing name and options); C12_flat_semantics proves that the model's run equals it under the no-name-clash "
+            "guard. Known finding F8 (module and generic fn of the same name share a tree node) is kept "
             "in a separate stream matched by known_findings.txt. Trusted: rustc's module_path!/line!/column!/type_name, the crate generator.",
     "technique": "machine-checked proof in Coq (trie invariant, chains by raw path, commuting slot updates) + whole-program differential "
                  "correspondence incl. generated macro crates compiled offline against the checked tree",
